@@ -1,7 +1,7 @@
 (* C07 - property theorems (statements only; the proofs live in Acme.C01.ProofsXxx / Acme.C07.ProofsXxx). *)
 From Coq Require Import ZArith List.
 From Acme.C01 Require Import Layout State Model ProofsLayout ProofsInv ProofsSpec ProofsAccept Refuted ProofsT1 Examples.
-From Acme.C07 Require Import Model Proofs ProofsReg ProofsFinal ProofsEffect ProofsRange ProofsNames.
+From Acme.C07 Require Import Model Proofs ProofsReg ProofsFinal ProofsEffect ProofsRange ProofsNames ProofsTotal.
 Import ListNotations.
 Open Scope Z_scope.
 
@@ -249,3 +249,20 @@ Print Assumptions message_names_are_tree.
 Theorem mux_names_are_members : forall s u x, InvM s -> InvN s -> (memb x (unames s u) = true <-> pmux s x = Some u).
 Proof. exact ProofsNames.mux_names_are_members. Qed.
 Print Assumptions mux_names_are_members.
+
+(* acceptance of the detaching operations of a multiplexer: RemoveSignal exactly for a member, ClearSignalGroup
+   exactly for a group id of the multiplexer (its loop never reaches the panic branch) *)
+Theorem mux_remove_accepted_iff : forall s u x, InvM s ->
+  (is_ok (snd (step_mux_remove s u x)) <-> pmux s x = Some u).
+Proof. exact ProofsTotal.mux_remove_accepted_iff. Qed.
+Print Assumptions mux_remove_accepted_iff.
+
+Theorem mux_clear_group_accepted_iff : forall s u g, InvA s -> InvM s -> vmux s u = true ->
+  (is_ok (snd (step_mux_clear_group s u g)) <-> 0 <= g < mux_count s u).
+Proof. exact ProofsTotal.mux_clear_group_accepted_iff. Qed.
+Print Assumptions mux_clear_group_accepted_iff.
+
+(* no operation on a multiplexer panics, and a refused one changes nothing (all 29 operations: Properties/C01.v) *)
+Theorem mux_no_panic : forall s o, InvA s -> InvM s -> InvR s -> ok_op_f s o -> snd (step s o) <> RPanic.
+Proof. exact ProofsTotal.no_panic. Qed.
+Print Assumptions mux_no_panic.
